@@ -211,17 +211,21 @@ def spectrum_case(ctx, rng, M, force_scale=None, force_written=False):
             ctx.count("spectrum:combinatorial")
             # the qubit operator lives on 2^nq >= dim: the extra eigenvalues belong to unused basis states
             rest = list(ev)
-            ok = True
+            ok, worst = True, 0.0
             for e in sec:
                 k = int(np.argmin(np.abs(np.array(rest) - e)))
+                worst = max(worst, abs(rest[k] - e))
                 if abs(rest[k] - e) > ctol:
                     ok = False
                     break
                 rest.pop(k)
-            # basis states of the register that encode no configuration only see the constant term of the operator
-            const = float(np.real(H.terms.get((), 0.0)))      # the constant of the fermionic operator
-            if not ok or any(min(abs(r), abs(r - const)) > ctol for r in rest):
-                ctx.violation(f"combinatorial(n_modes={M}, n_electrons=({na},{nb})): spectrum differs from the fixed-particle-number sector", {**case, "na": na, "nb": nb})
+            # basis states of the register that encode no configuration are outside the represented space: the property says
+            # nothing about them.  (In practice they see 0 or the constant of the normal-ordered operator; counted, not judged.)
+            const = float(np.real(Hm[0, 0]))                   # vacuum expectation value = constant of the normal-ordered operator
+            if any(min(abs(r), abs(r - const)) > ctol for r in rest):
+                ctx.count("spectrum:combinatorial:unused-register-state-sees-something-else")
+            if not ok:
+                ctx.violation(f"combinatorial(n_modes={M}, n_electrons=({na},{nb})): spectrum differs from the fixed-particle-number sector (deviation {worst:.3g}, tolerance {ctol:.3g}, scale {scale}, {len(q.terms)} Pauli terms; eigenvalues on unused register states {[float(r) for r in rest]}, constant term {const})", {**case, "na": na, "nb": nb, "scale": scale})
                 return False
     return True
 
